@@ -148,7 +148,7 @@ def _col(vals):
 
 
 class Model:
-    """fonts: {resource key: {"name": fontname, "widths": {code: w (1000-unit)}}}
+    """fonts: {resource key: {"name": fontname, "widths": {code: w (1000-unit)}, "missing": MissingWidth (default 0)}}
     forms: {name: {"matrix": m6, "ops": [...], "fonts": optional own font map}}
     inherit=True: ISO semantics (a form inherits the caller's graphics state);
     inherit=False: the form starts from a fresh graphics/text state (pdfminer's behaviour, used to classify
@@ -284,7 +284,7 @@ class Model:
                         continue
                     f = gs.font
                     for c in it:
-                        w0 = Fr(f["widths"].get(c, 0), 1000)
+                        w0 = Fr(f["widths"].get(c, f.get("missing", 0)), 1000)
                         adv = w0 * gs.fs * gs.Th
                         out.append(("char", {"matrix": mm(Tm, gs.ctm), "adv": adv, "font": f["name"], "ncolor": gs.ncolor,
                                              "code": c, "fs": gs.fs, "rise": gs.Ts}))
